@@ -109,6 +109,20 @@ Section Abstract.
                 else None
             | None =>
                 match callee, args with
+                | Node (K KMember _ _) [obj; Node (K KIdentName _ _) [Node (Str mname) []]], [] =>
+                    (* a method call o.m() *)
+                    match abstract f obj with Some ox => Some (MCall0 ox mname) | None => None end
+                | Node (K KMember _ _) [fn; Node (K KIdentName _ _) [Node (Str "call") []]], [th] =>
+                    (* fn.call(this): as the rewriter builds it (a source call x.call(y) is read the same way,
+                       on both sides of the comparison) *)
+                    match plain_arg th with
+                    | Some te =>
+                        match abstract f fn, abstract f te with
+                        | Some fx, Some tx => Some (CallT0 fx tx)
+                        | _, _ => None
+                        end
+                    | None => None
+                    end
                 | Node (K KMember _ _) [obj; Node (K KIdentName _ _) [Node (Str mname) []]], [a] =>
                     (* a method call o.m(a) *)
                     match plain_arg a with
@@ -166,6 +180,8 @@ Fixpoint expr_eqb (a b : expr) : bool :=
   | Add l r, Add l' r' => expr_eqb l l' && expr_eqb r r'
   | CallE f x, CallE f' x' => expr_eqb f f' && expr_eqb x x'
   | Par x, Par y => expr_eqb x y
+  | MCall0 o m, MCall0 o' m' => expr_eqb o o' && String.eqb m m'
+  | CallT0 f t, CallT0 f' t' => expr_eqb f f' && expr_eqb t t'
   | MCall1 o m a, MCall1 o' m' a' => expr_eqb o o' && String.eqb m m' && expr_eqb a a'
   | Get o m, Get o' m' => expr_eqb o o' && String.eqb m m'
   | CallT1 f t a, CallT1 f' t' a' => expr_eqb f f' && expr_eqb t t' && expr_eqb a a'
